@@ -6,6 +6,8 @@
 
 package data
 
+//@ import "time"
+
 //@ spec func pow256(n int) uint64 {
 //@   switch n {
 //@   case 1: return 1 << 8
@@ -89,6 +91,176 @@ package data
 //@     u, e := i.UintSafe()
 //@     assert(e == nil && u == uint64(value))
 //@   }
+//@ }
+
+// ---------------------------------------------------------------- fixed-width helpers
+
+//@ contract EncodeUint16(value uint16) (b [2]byte)
+//@   ensures @C12 val(b[:]) == uint64(value)
+//@ contract EncodeUint32(value uint32) (b [4]byte)
+//@   ensures @C12 val(b[:]) == uint64(value)
+//@ contract EncodeUint64(value uint64) (b [8]byte)
+//@   ensures @C12 val(b[:]) == value
+//@ contract DecodeUint16(data [2]byte) (v uint16)
+//@   ensures @C12 uint64(v) == val(data[:])
+//@ contract DecodeUint32(data [4]byte) (v uint32)
+//@   ensures @C12 uint64(v) == val(data[:])
+//@ contract DecodeUint64(data [8]byte) (v uint64)
+//@   ensures @C12 v == val(data[:])
+//@ contract EncodeInt16(value int16) (b [2]byte)
+//@   ensures @C12 val(b[:]) == uint64(uint16(value))
+//@ contract EncodeInt32(value int32) (b [4]byte)
+//@   ensures @C12 val(b[:]) == uint64(uint32(value))
+//@ contract EncodeInt64(value int64) (b [8]byte)
+//@   ensures @C12 val(b[:]) == uint64(value)
+//@ contract DecodeInt16(data [2]byte) (v int16)
+//@   ensures @C12 uint64(uint16(v)) == val(data[:])
+//@ contract DecodeInt32(data [4]byte) (v int32)
+//@   ensures @C12 uint64(uint32(v)) == val(data[:])
+//@ contract DecodeInt64(data [8]byte) (v int64)
+//@   ensures @C12 uint64(v) == val(data[:])
+
+//@ lemma C12_FixedWidthRoundTrip(a uint16, b uint32, c uint64, d int16, e int32, f int64) {
+//@   assert(DecodeUint16(EncodeUint16(a)) == a)
+//@   assert(DecodeUint32(EncodeUint32(b)) == b)
+//@   assert(DecodeUint64(EncodeUint64(c)) == c)
+//@   assert(DecodeInt16(EncodeInt16(d)) == d)
+//@   assert(DecodeInt32(EncodeInt32(e)) == e)
+//@   assert(DecodeInt64(EncodeInt64(f)) == f)
+//@ }
+
+// ---------------------------------------------------------------- Date
+
+//@ contract (i Date) Int() (v int)
+//@   ensures @C12 v == int(val(i[:]))
+//@   modifies nothing
+
+//@ contract (i Date) Bytes() (b []byte)
+//@   ensures len(b) == 8 && seqeq(b, i[:]) && fresh(b)
+//@   modifies nothing
+
+//@ contract (date Date) Time() (t time.Time)
+//@   ensures @C12 @C15 val(date[:]) <= 9223372036854775807 ==> t.Equal(time.UnixMilli(int64(val(date[:]))))
+//@   modifies nothing
+
+//@ contract ReadDate(data []byte) (date Date, remainder []byte, err error)
+//@   ensures @C03 @C12 (err == nil) == (len(data) >= 8)
+//@   ensures @C03 @C12 err == nil ==> seqeq(date[:], data[:8]) && same(remainder, data[8:])
+//@   ensures @C03 err != nil ==> remainder == nil
+//@   modifies nothing
+
+//@ contract NewDate(data []byte) (date *Date, remainder []byte, err error)
+//@   ensures @C19 (err == nil) == (len(data) >= 8)
+//@   ensures @C19 err == nil ==> date != nil && seqeq(date[:], data[:8]) && same(remainder, data[8:])
+//@   ensures err != nil ==> date == nil && remainder == nil
+//@   modifies nothing
+
+//@ contract DateFromTime(t time.Time) (date *Date, err error)
+//@   ensures err == nil && date != nil
+//@   ensures @C12 @C15 0 <= t.UnixMilli() ==> val(date[:]) == uint64(t.UnixMilli())
+//@   loop 0: unroll 8
+
+//@ contract NewDateFromMillis(millis int64) (date *Date, err error)
+//@   ensures @C12 (err == nil) == (millis >= 0)
+//@   ensures @C12 @C15 err == nil ==> date != nil && val(date[:]) == uint64(millis)
+
+//@ contract NewDateFromUnix(timestamp int64) (date *Date, err error)
+//@   ensures @C12 (err == nil) == (0 <= timestamp && timestamp <= 9223372036854775)
+//@   ensures @C12 @C15 err == nil ==> date != nil && val(date[:]) == uint64(timestamp)*1000
+
+//@ lemma C12_DateMillisRoundTrip(millis int64) {
+//@   d, err := NewDateFromMillis(millis)
+//@   if err == nil {
+//@     assert(d.Time().UnixMilli() == millis)
+//@     assert(int64(d.Int()) == millis)
+//@   }
+//@ }
+
+// ---------------------------------------------------------------- Hash
+
+//@ contract NewHashFromSlice(data []byte) (h Hash, err error)
+//@   ensures (err == nil) == (len(data) == 32)
+//@   ensures err == nil ==> seqeq(h[:], data)
+//@   modifies nothing
+
+//@ contract ReadHash(data []byte) (h Hash, rem []byte, err error)
+//@   ensures @C03 @C12 (err == nil) == (len(data) >= 32)
+//@   ensures @C03 @C12 err == nil ==> seqeq(h[:], data[:32]) && same(rem, data[32:])
+//@   ensures err != nil ==> same(rem, data)
+//@   modifies nothing
+
+// ---------------------------------------------------------------- I2PString
+
+//@ spec func strOK(s I2PString) bool { return len(s) >= 1 && len(s) == int(s[0])+1 }
+
+//@ contract (str I2PString) IsValid() (ok bool)
+//@   ensures @C12 ok == strOK(str)
+//@   modifies nothing
+
+//@ contract ReadI2PString(data []byte) (str I2PString, remainder []byte, err error)
+//@   ensures @C03 @C12 len(data) == 0 ==> err == ErrZeroLength && str == nil && remainder == nil
+//@   ensures @C03 @C12 len(data) > 0 && int(data[0])+1 > len(data) ==> err == ErrDataTooShort && same(str, data) && remainder == nil
+//@   ensures @C03 @C12 len(data) > 0 && int(data[0])+1 <= len(data) ==> err == nil && same(str, data[:int(data[0])+1]) && same(remainder, data[int(data[0])+1:])
+//@   modifies nothing
+
+//@ contract NewI2PString(content string) (s I2PString, err error)
+//@   ensures @C12 (err == nil) == (len(content) <= 255)
+//@   ensures @C12 err == nil ==> len(s) == len(content)+1 && int(s[0]) == len(content) && seqeq(s[1:], []byte(content)) && fresh(s)
+//@   ensures err != nil ==> s == nil
+//@   modifies nothing
+
+//@ contract ToI2PString(data string) (str I2PString, err error)
+//@   ensures @C12 @C19 (err == nil) == (len(data) <= 255)
+//@   ensures @C12 @C19 err == nil ==> len(str) == len(data)+1 && int(str[0]) == len(data) && seqeq(str[1:], []byte(data)) && fresh(str)
+//@   ensures err != nil ==> str == nil
+//@   modifies nothing
+
+//@ contract NewI2PStringFromBytes(data []byte) (s I2PString, err error)
+//@   ensures @C12 (err == nil) == (len(data) >= 1 && len(data) == int(data[0])+1)
+//@   ensures @C12 err == nil ==> seqeq(s, data) && fresh(s)
+//@   ensures err != nil ==> s == nil
+//@   modifies nothing
+
+//@ contract (str I2PString) Length() (length int, err error)
+//@   ensures @C12 len(str) == 0 ==> err == ErrZeroLength && length == 0
+//@   ensures @C12 len(str) > 0 ==> length == int(str[0])
+//@   ensures @C12 len(str) > 0 && int(str[0]) > len(str)-1 ==> err == ErrDataTooShort
+//@   ensures @C12 len(str) > 0 && int(str[0]) < len(str)-1 ==> err == ErrDataTooLong
+//@   ensures @C12 strOK(str) ==> err == nil
+//@   modifies nothing
+
+//@ contract (str I2PString) Data() (data string, err error)
+//@   ensures @C12 (err == nil) == strOK(str)
+//@   ensures @C12 err == nil ==> len(data) == len(str)-1 && seqeq([]byte(data), str[1:])
+//@   ensures err != nil ==> len(data) == 0
+//@   modifies nothing
+
+//@ contract (str I2PString) DataSafe() (data string, err error)
+//@   ensures @C12 (err == nil) == strOK(str)
+//@   ensures @C12 err == nil ==> len(data) == len(str)-1 && seqeq([]byte(data), str[1:])
+//@   ensures err != nil ==> len(data) == 0
+//@   modifies nothing
+
+//@ lemma C12_StringRoundTrip(content string) {
+//@   s, err := NewI2PString(content)
+//@   if err == nil {
+//@     d, e := s.Data()
+//@     assert(e == nil && seqeq([]byte(d), []byte(content)))
+//@     r, rem, e2 := ReadI2PString(s)
+//@     assert(e2 == nil && len(rem) == 0 && seqeq(r, s))
+//@   }
+//@ }
+
+//@ lemma C12_ReadersNeverCompleteOnShortInput(data []byte, size int) {
+//@   _, _, e1 := ReadDate(data)
+//@   assert(len(data) < 8 ==> e1 != nil)
+//@   _, _, e2 := ReadHash(data)
+//@   assert(len(data) < 32 ==> e2 != nil)
+//@   s, _, e3 := ReadI2PString(data)
+//@   assert(len(data) > 0 && int(data[0])+1 > len(data) ==> e3 != nil)
+//@   assert(e3 == nil ==> strOK(s))
+//@   i, rem := ReadInteger(data, size)
+//@   assert(1 <= size && size <= 8 && len(data) < size ==> rem == nil && len(i) < size)
 //@ }
 
 //@ lemma T_mustfail1(value int, size int) {
